@@ -2,6 +2,7 @@
 from fractions import Fraction
 from vp_common import *
 import vp_coq, kick_cases as kc
+import fp_cases as fc
 
 
 def clear_of_border(n, it, o, row, margin=2):
@@ -80,7 +81,12 @@ def run(ctx):
     ctx.rule = ("kick cases as in C02 plus a far-shift stream (|offset| ~ n/2) ; per (case,bunch,row) the plain sum before/after "
                 "apply() on the implementation whenever the theorem's hypotheses (row_ok) or the property's own hypothesis "
                 "(support clear of the border before and after) hold. Non-trivial: interior non-empty support and non-zero offset.")
-    coq = vp_coq.full_check("C01", ctx, fams=("kick",))
+    ctx.rule += (" fp cases: both derivation stencils x four FPType variants, n 9..65, nb 1..3, axes with integer / "
+                 "half-integer / shifted zero bin, e1 dyadic (exact stream, 3-point: bit equality of table and output) or arbitrary "
+                 "float (tolerance stream); table _hinfo compared entry by entry, then outputs; per non-empty interior column the plain "
+                 "sum before/after apply() (tolerated: rounding, and e1*|in(k)| in the four switch rows of the 4-point stencil); "
+                 "identity-matrix data give every column sum of the operator. Non-trivial: variant != none, e1 != 0.")
+    coq = vp_coq.full_check("C01", ctx, fams=("kick", "fp"))
     nk = 120 if ctx.quick() else 3000
     cases = kc.gen_cases(ctx, nk) + farshift_cases(ctx, 24 if ctx.quick() else 400)
     res = kc.run_cases(ctx, cases)
@@ -92,6 +98,16 @@ def run(ctx):
         oracle_conservation(ctx, c, res[c.cid])
     ctx.sample(cases[0].describe())
     ctx.sample(cases[-1].describe())
+    fcases = fc.gen_cases(ctx, 160 if ctx.quick() else 2400)
+    fres = fc.run_cases(ctx, fcases)
+    for c in fcases:
+        d = fc.compare_case(c, fres[c.cid])
+        if d:
+            dis.append(dict(case=c.replay(), detail=d[:3], sig=dict(kind="fp", stage="correspondence", dt=c.dt,
+                                                                    variant=fc.VARIANTS[c.v])))
+        fc.oracle_conservation(ctx, c, fres[c.cid])
+    ctx.sample(fcases[0].describe())
+    ctx.sample(fcases[-1].describe())
     ctx.extra["correspondence_disagreements"] = len(dis)
     ctx.assumptions += ["exact-arithmetic model; rounding handled by the exact/tolerance streams (DESIGN 3)"]
     conclude(ctx, coq, dis)
